@@ -59,6 +59,9 @@ def run_case(c):
     if c.get("kind") in ("loops", "inputs_backend"):
         from checks import c02 as _c02
         return _c02.dispatch(c)
+    if c.get("kind") == "dde_run":
+        from rtc import cases as _cases
+        return _cases.case_fn(c)
     if c["solver"] == "scipy":
         fails = oracle.check_adaptive_run(c["model"], c["T"], c["dt"], c["dts"], c["vec"], method=c.get("method", "RK45"))
     else:
@@ -99,6 +102,11 @@ def run_cases_for(chk):
             for solver in ("euler", "heun"):
                 cases.append(dict(tag=f"{t_}/{solver}", features=dict(f_, solver=solver, dde=True), model=m_, solver=solver, T=2.0, dt=0.05,
                                   dts=0.1, vec=False, cutoff=0.0))
+    # delayed models under the adaptive solver with a sampling step LARGER than the delay: every accepted step enters the history
+    for t_, f_, m_ in gen.dde_models():
+        if t_.split("-")[0] in ("H1", "H3"):
+            cases.append(dict(tag=f"{t_}/scipy-coarse", features=dict(f_, solver="scipy", dde=True, coarse=True), kind="dde_run", model=m_, solver="scipy",
+                              T=2.0, dts=1.0))
     # the listed known finding: T is not a multiple of the sampling step and one more sample is due than rows exist
     t, f, m = fam[0]
     for solver in ("euler", "heun"):
